@@ -21,10 +21,30 @@ pub struct Obs {
 pub fn observe(ctx: &Ctx, bytes: &[u8]) -> Obs {
   let sb = Sandbox::new(&ctx.work, "c07");
   sb.write("t.torrent", bytes);
-  let j = Cmd::new(&ctx.imdl, &["torrent", "show", "--json", "--input", "t.torrent"]).cwd(&sb.root).run();
-  let t = Cmd::new(&ctx.imdl, &["torrent", "show", "--input", "t.torrent"]).cwd(&sb.root).run();
-  let h = Cmd::new(&ctx.imdl, &["--terminal", "torrent", "show", "--input", "t.torrent"]).cwd(&sb.root).run();
-  let s = Cmd::new(&ctx.imdl, &["torrent", "show", "--json", "--input", "-"]).cwd(&sb.root).stdin(bytes).run();
+  // the local time zone is no business of a report about a file (the creation date is an instant, shown in UTC)
+  let pick = crate::report::fnv(bytes);
+  let tz = ["UTC", "JST-9", "EST5EDT", "<+14>-14", "<-11>11", "Asia/Kolkata"][(pick % 6) as usize];
+  let j = Cmd::new(&ctx.imdl, &["torrent", "show", "--json", "--input", "t.torrent"]).cwd(&sb.root).env("TZ", tz).run();
+  let t = Cmd::new(&ctx.imdl, &["torrent", "show", "--input", "t.torrent"]).cwd(&sb.root).env("TZ", tz).run();
+  // (a narrow width hint now and then: no value may be cut off)
+  let h = Cmd::new(&ctx.imdl, &["--terminal", "torrent", "show", "--input", "t.torrent"]).cwd(&sb.root).env("TZ", tz).env("IMDL_TERM_WIDTH", if pick % 3 == 0 { "40" } else { "wide" }).run();
+  // the same bytes by another route give the same report: standard input, a pipe opened by path, a file called `-`
+  // (addressed as `./-`, with another torrent waiting on standard input), a relative link in another directory
+  let other = b"d4:infod6:lengthi1e4:name5:other12:piece lengthi16384e6:pieces20:aaaaaaaaaaaaaaaaaaaaee";
+  let s = match (pick / 6) % 4 {
+    0 => Cmd::new(&ctx.imdl, &["torrent", "show", "--json", "--input", "-"]).cwd(&sb.root).stdin(bytes).run(),
+    1 => Cmd::new(&ctx.imdl, &["torrent", "show", "--json", "--input", "/dev/stdin"]).cwd(&sb.root).stdin(bytes).run(),
+    2 => {
+      sb.write("-", bytes);
+      Cmd::new(&ctx.imdl, &["torrent", "show", "--json", "--input", "./-"]).cwd(&sb.root).stdin(other).literal().run()
+    }
+    _ => {
+      sb.write("sub/real.torrent", bytes);
+      sb.write("real.torrent", other);
+      let _ = std::os::unix::fs::symlink("real.torrent", sb.path("sub/link.torrent"));
+      Cmd::new(&ctx.imdl, &["torrent", "show", "--json", "--input", "sub/link.torrent"]).cwd(&sb.root).run()
+    }
+  };
   Obs {
     json: if j.ok() { serde_json::from_str(j.stdout_s().trim_end()).ok() } else { None },
     json_code: j.code,
